@@ -260,6 +260,9 @@ static void one_case(vh::Ctx & c, uint64_t idx)
   cl.homogeneous = r.coin();
   cl.prefill = (int)r.range(0, 1);
   gen_cloud(r, cl);
+  // a sample exactly at the sensor origin (zero-encoded return, surface through the sensor): every
+  // point of the cloud still gets a unit normal
+  if (r.coin(0.15)) {cl.pts[r.range(0, (int)cl.pts.size() - 1)].setZero(); cl.planar = false; c.cat("cloud_with_point_at_origin");}
   // units: every clause of the statement is scale invariant, so the same cloud expressed in
   // another unit (micrometres .. kilometres) is an equally valid input
   if (r.coin(0.4)) {
